@@ -13,7 +13,20 @@ On a disagreement the harness looks for an input on which the property itself
 fails: output different from an independent re-computation with the given
 arguments, or no signed renaming + clause permutation relating input and
 output (exhaustive for <= 6 variables), or different variable count / clause
-count / width multiset / model count."""
+count / width multiset / model count.
+
+Streams added by the strengthening round (notes/LARGE_STREAMS.md), run FIRST as a corpus:
+  thresholds-explicit   valid explicit flips / permutations for N, M in {255,256,257,258,300,1000} (list, tuple,
+                        range, reversed range, every 'fixed' combination), applied exactly as given;
+  thresholds-invalid    the same sizes with one defect at the first / 256th / last position, wrong lengths, and
+                        near-miss multisets (x+{0,4,5} replaced by x+{1,2,6}: same sum and sum of squares);
+  near-miss-invalid     N, M = 7..10 (thorough: ..12): EVERY multiset over 0..N+1 with the sum and the sum of squares
+                        of 1..N, in several orders; one duplicate + one missing; one entry replaced by 0 / N+1;
+  degenerate            0 variables with k empty clauses, formulas whose variables all come from their clauses (no
+                        declared extra variable), through the library (explicit and random path), cnfshuffle, -T shuffle;
+  thresholds-random     the random path (library, cnfshuffle, -T shuffle) with 256..1000 variables / clauses;
+  history               one formula object shuffled, edited through its public API (clauses naming new variables,
+                        raises by several units) and shuffled again; shuffles of shuffles; the source must not change."""
 import contextlib
 import itertools
 import json
@@ -35,7 +48,9 @@ META = dict(
          'that its output is the input renamed by one signed bijection of the variables and rearranged by the given clause '
          'permutation (hence same variable count, clause count, width multiset and number of models); the model is tied to '
          'the code by exact comparison on explicit valid and invalid arguments and, for the random path of the library, of '
-         'cnfshuffle and of -T shuffle, by recording the draws of the random module and replaying them in the model.',
+         'cnfshuffle and of -T shuffle, by recording the draws of the random module and replaying them in the model; sizes '
+         '255-1000, every near-miss non-permutation of 7-10 entries with the right sum and sum of squares, degenerate '
+         'formulas and formula objects edited between two shuffles are part of every run.',
     note='Trusted: Coq kernel, extraction, OCaml driver, the harness and its wrappers of random.choice/random.shuffle (they '
          'call the original functions). The contract of the random module (shuffle permutes its argument, choice returns an '
          'element) is checked at run time on the recorded draws only. Float/str arguments are outside the documented types '
@@ -363,6 +378,337 @@ def judge_random(ctx, stream, descr, N, F, modes, draws, got, tail=False, site='
 
 
 # --------------------------------------------------------------------------
+# thresholds / near-miss / degenerate / history streams (notes/LARGE_STREAMS.md)
+# --------------------------------------------------------------------------
+THRESHOLD_N = [255, 256, 257, 258, 300, 1000]
+
+
+def fresh(xs):
+    """equal values as DISTINCT int objects (CPython shares ints only up to 256)"""
+    return [int(str(x)) for x in xs]
+
+
+def big_cnf(rng, N, M):
+    """M clauses over N variables; the literals favour the variables around 255..258 and N"""
+    hot = [v for v in (1, 2, 254, 255, 256, 257, 258, N - 2, N - 1, N) if 1 <= v <= N]
+    F = []
+    for i in range(M):
+        w = rng.choice([0, 1, 1, 2, 2, 3])
+        if N == 0:
+            w = 0
+        c = [rng.choice([1, -1]) * (rng.choice(hot) if rng.random() < 0.5 else rng.randint(1, N)) for _ in range(w)]
+        if w >= 2 and rng.random() < 0.15:
+            c[1] = rng.choice([1, -1]) * abs(c[0])
+        F.append(c)
+    return F
+
+
+def same_sum_and_squares(N, lo, hi):
+    """all sorted tuples of N entries in lo..hi with the sum and the sum of squares of 1..N, except 1..N itself"""
+    S = N * (N + 1) // 2
+    Q = N * (N + 1) * (2 * N + 1) // 6
+    out = []
+
+    def rec(start, left, s, q, cur):
+        if left == 0:
+            if s == 0 and q == 0:
+                out.append(tuple(cur))
+            return
+        for v in range(start, hi + 1):
+            if v > 0 and (v * left > s or v * v * left > q):
+                break
+            cur.append(v)
+            rec(v, left - 1, s - v, q - v * v, cur)
+            cur.pop()
+    rec(lo, N, S, Q, [])
+    ident = tuple(range(1, N + 1))
+    return [m for m in out if m != ident]
+
+
+def orders(rng, ms, quick):
+    """several arrangements of one multiset"""
+    a = list(ms)
+    out = [('sorted', list(a)), ('reversed', list(reversed(a)))]
+    for _ in range(1 if quick else 3):
+        b = list(a)
+        rng.shuffle(b)
+        out.append(('random-order', b))
+    return out
+
+
+def pte_near_miss(N, x):
+    """1..N with x, x+4, x+5 replaced by x+1, x+2, x+6 (Prouhet-Tarry-Escott): same length, sum, sum of squares"""
+    l = list(range(1, N + 1))
+    for a, b in ((x, x + 1), (x + 4, x + 2), (x + 5, x + 6)):
+        l[a - 1] = b
+    return l
+
+
+def large_jobs(ctx, quick, CNF, Shuffle):
+    rng = ctx.rng
+    jobs = []
+
+    def add(stream, tag, G, N, F, fl, pm, cp, key, conts=('list', 'list', 'list')):
+        def wrap(x, c):
+            if x == 'fixed':
+                return x
+            if c == 'tuple':
+                return tuple(fresh(x))
+            if c == 'range':
+                return range(x[0], x[-1] + 1)
+            if c == 'range-reversed':
+                return range(x[0], x[-1] - 1, -1)
+            return fresh(x)
+        a, b, c = wrap(fl, conts[0]), wrap(pm, conts[1]), wrap(cp, conts[2])
+        for what, x, cn in (('flips', fl, conts[0]), ('variable permutation', pm, conts[1]), ('clause permutation', cp, conts[2])):
+            ctx.tally(stream + ': ' + what + ' given as', "'fixed'" if x == 'fixed' else cn)
+        ctx.tally(stream + ': case', tag)
+        descr = dict(kind=tag, numvar=N, clauses=F, polarity_flips=jsonable(fl), variables_permutation=jsonable(pm),
+                     clauses_permutation=jsonable(cp))
+        jobs.append((stream, descr, N, F, fl, pm, cp, (lambda: Shuffle(G, a, b, c)), key))
+
+    # ---- valid explicit arguments at the threshold sizes ----
+    sizes = [(257, 256), (256, 300), (258, 257), (255, 17), (300, 258), (1000, 255), (257, 257), (256, 0), (1000, 1000)] if quick else \
+        [(n, m) for n in THRESHOLD_N for m in (0, 17, 255, 256, 257, 258, 300, 1000) if (n + m) % 2 == 0 or m in (256, 257)]
+    for si, (N, M) in enumerate(sizes):
+        F = big_cnf(rng, N, M)
+        G = build(CNF, N, F)
+        ctx.tally('thresholds: formula variables', N)
+        ctx.tally('thresholds: formula clauses', M)
+        ident, cident = list(range(1, N + 1)), list(range(M))
+        variants = [
+            ('random', [rng.choice([1, -1]) for _ in range(N)], rng.sample(ident, N), rng.sample(cident, M), ('list', 'list', 'list')),
+            ('random-as-tuples', [rng.choice([1, -1]) for _ in range(N)], rng.sample(ident, N), rng.sample(cident, M), ('tuple', 'tuple', 'tuple')),
+            ('identity-as-range', [1] * N, ident, cident, ('list', 'range', 'range')),
+            ('reversal-as-range', [-1] * N, ident[::-1], cident[::-1], ('tuple', 'range-reversed', 'range-reversed')),
+            ('only-flips', [rng.choice([1, -1]) for _ in range(N)], 'fixed', 'fixed', ('list',) * 3),
+            ('only-variables', 'fixed', rng.sample(ident, N), 'fixed', ('list',) * 3),
+            ('only-clauses', 'fixed', 'fixed', rng.sample(cident, M), ('list',) * 3),
+            ('swap-last-two', 'fixed', ident[:-2] + ident[-2:][::-1], cident[:-2] + cident[-2:][::-1], ('list',) * 3),
+            ('all-fixed', 'fixed', 'fixed', 'fixed', ('list',) * 3),
+        ]
+        if M == 0:
+            variants = [v for v in variants if v[0] not in ('reversal-as-range', 'identity-as-range')] + \
+                [('identity-as-range', [1] * N, ident, 'fixed', ('list', 'range', 'list'))]
+        for tag, fl, pm, cp, conts in variants:
+            add('thresholds-explicit', tag, G, N, F, fl, pm, cp, ('thr', si, tag), conts)
+        # ---- invalid arguments at the same sizes ----
+        vf, vp, vc = [rng.choice([1, -1]) for _ in range(N)], rng.sample(ident, N), rng.sample(cident, M)
+        bad = []
+        for pos in sorted({0, 255, 256, 257, N - 1}):
+            if pos < N:
+                for e in (0, 2, -2):
+                    f = list(vf)
+                    f[pos] = e
+                    bad.append(('flips-entry-%d-at-position-%d' % (e, pos), f, vp, vc))
+                p = list(vp)
+                p[pos] = p[pos - 1] if pos else p[1]
+                bad.append(('perm-duplicate-at-position-%d' % pos, vf, p, vc))
+                p = list(vp)
+                p[pos] = N + 1 if vp[pos] != N else 0
+                bad.append(('perm-entry-out-of-range-at-position-%d' % pos, vf, p, vc))
+            if pos < M and M >= 2:
+                c = list(vc)
+                c[pos] = c[pos - 1] if pos else c[1]
+                bad.append(('cperm-duplicate-at-position-%d' % pos, vf, vp, c))
+                c = list(vc)
+                c[pos] = M if vc[pos] != M - 1 else -1
+                bad.append(('cperm-entry-out-of-range-at-position-%d' % pos, vf, vp, c))
+        bad += [('flips-too-long', vf + [1], vp, vc), ('flips-too-short', vf[:-1], vp, vc),
+                ('perm-too-long', vf, vp + [N + 1], vc), ('perm-too-short', vf, vp[:-1], vc),
+                ('cperm-too-long', vf, vp, vc + [M]), ('perm-one-duplicate-one-missing', vf, [N - 1 if x == N else x for x in vp], vc),
+                ('perm-zero-based', vf, [x - 1 for x in vp], vc)]
+        if M >= 2:
+            bad += [('cperm-too-short', vf, vp, vc[:-1]), ('cperm-one-based', vf, vp, [x + 1 for x in vc]),
+                    ('cperm-one-duplicate-one-missing', vf, vp, [M - 2 if x == M - 1 else x for x in vc])]
+        for x in (1, 250, 252, 256, N - 6):
+            if x >= 1 and x + 6 <= N:
+                l = pte_near_miss(N, x)
+                rng.shuffle(l)
+                bad.append(('perm-same-sum-and-squares-around-%d' % x, vf, l, vc))
+            if x >= 1 and x + 6 <= M:
+                l = [v - 1 for v in pte_near_miss(M, x)]
+                rng.shuffle(l)
+                bad.append(('cperm-same-sum-and-squares-around-%d' % x, vf, vp, l))
+        for tag, fl, pm, cp in bad:
+            add('thresholds-invalid', tag.split('-at-position')[0].split('-around')[0], G, N, F, fl, pm, cp, ('thr-bad', si, tag))
+
+    # ---- near misses: every multiset with the sum and the sum of squares of 1..N ----
+    for N in (range(6, 11) if quick else range(6, 13)):
+        M = N
+        F = [[rng.choice([1, -1]) * rng.randint(1, N) for _ in range(rng.randint(1, 3))] for _ in range(M)]
+        G = build(CNF, N, F)
+        vf, vp, vc = [rng.choice([1, -1]) for _ in range(N)], rng.sample(range(1, N + 1), N), rng.sample(range(M), M)
+        sets = same_sum_and_squares(N, 0, N + 1)
+        ctx.tally('near-miss: multisets with the sum and sum of squares of 1..N', '%d for N=%d' % (len(sets), N))
+        for mi, ms in enumerate(sets):
+            for oname, l in orders(rng, ms, quick):
+                add('near-miss-invalid', 'variables: same sum and sum of squares', G, N, F, vf, l, vc, ('nm-v', N, mi, tuple(l)))
+                add('near-miss-invalid', 'clauses: same sum and sum of squares', G, N, F, vf, vp, [x - 1 for x in l],
+                    ('nm-c', N, mi, tuple(l)))
+        for a in range(1, N + 1):
+            for b in range(1, N + 1):
+                if a != b and (not quick or (a + b) % 3 == 0):
+                    l = [b if x == a else x for x in vp]        # a missing, b twice
+                    add('near-miss-invalid', 'variables: one duplicate + one missing', G, N, F, vf, l, vc, ('nm-dup-v', N, a, b))
+                    l = [b - 1 if x == a - 1 else x for x in vc]
+                    add('near-miss-invalid', 'clauses: one duplicate + one missing', G, N, F, vf, vp, l, ('nm-dup-c', N, a, b))
+        for pos in range(N):
+            for e in (0, N + 1, -vp[pos]):
+                l = list(vp)
+                l[pos] = e
+                add('near-miss-invalid', 'variables: one entry replaced by 0 / N+1 / its opposite', G, N, F, vf, l, vc, ('nm-rep-v', N, pos, e))
+            for e in (-1, M):
+                l = list(vc)
+                l[pos] = e
+                add('near-miss-invalid', 'clauses: one entry replaced by -1 / M', G, N, F, vf, vp, l, ('nm-rep-c', N, pos, e))
+
+    # ---- degenerate formulas ----
+    for k in (0, 1, 2, 3, 17):
+        F = [[] for _ in range(k)]
+        G = build(CNF, 0, F)
+        cp = rng.sample(range(k), k)
+        add('degenerate', '0 variables, k empty clauses', G, 0, F, [], [], cp, ('deg', k, 'explicit'))
+        add('degenerate', '0 variables, k empty clauses', G, 0, F, [], [], cp, ('deg', k, 'tuples'), ('tuple', 'tuple', 'tuple'))
+        add('degenerate', '0 variables, k empty clauses', G, 0, F, 'fixed', 'fixed', 'fixed', ('deg', k, 'fixed'))
+        add('degenerate', '0 variables, k empty clauses', G, 0, F, 'fixed', [], 'fixed', ('deg', k, 'empty perm'))
+        add('degenerate', '0 variables: invalid', G, 0, F, [1], [], cp, ('deg', k, 'flips too long'))
+        add('degenerate', '0 variables: invalid', G, 0, F, [], [1], cp, ('deg', k, 'perm too long'))
+        add('degenerate', '0 variables: invalid', G, 0, F, [], [], cp + [k], ('deg', k, 'cperm too long'))
+        if k:
+            add('degenerate', '0 variables: invalid', G, 0, F, [], [], [x + 1 for x in cp], ('deg', k, 'cperm one-based'))
+    for i in range(6 if quick else 40):
+        # every variable comes from a clause: no update_variable_number, no declared extra variable
+        N = rng.randint(1, 6)
+        F = [[rng.choice([1, -1]) * rng.randint(1, N) for _ in range(rng.randint(0, 3))] for _ in range(rng.randint(1, 5))] + [[N]]
+        G = CNF()
+        for c in F:
+            G.add_clause(c)
+        fl, pm, cp = valid_args(rng, N, len(F))
+        add('degenerate', 'variables declared by clauses only', G, N, F, fl, pm, cp, ('deg-undeclared', i))
+        G2 = CNF(F)
+        add('degenerate', 'variables declared by clauses only', G2, N, F, fl, pm, cp, ('deg-undeclared-ctor', i))
+    return jobs
+
+
+def run_explicit(ctx, jobs):
+    reqs = [cmd('shuffle', j[2], j[3], to_model(j[4]), to_model(j[5]), to_model(j[6])) for j in jobs]
+    for (stream, descr, N, F, fl, pm, cp, thunk, key), rep in zip(jobs, ctx.model.batch(reqs)):
+        ctx.count(stream, key, any(len(c) for c in F), sample=descr)
+        got = observe(thunk)
+        if 'invalid' in stream and not is_error(rep) and rep[0] == 'ok':
+            ctx.note('generator produced a valid argument in the invalid stream: %s' % descr['kind'])
+        judge_explicit(ctx, descr, N, F, fl, pm, cp, got, rep)
+
+
+def random_library_case(ctx, stream, descr, Shuffle, G, N, F, modes, seed, key):
+    draws = []
+    state = _random.getstate()
+    _random.seed(seed)
+    try:
+        with recorded_draws(draws):
+            got = observe(lambda: Shuffle(G, *modes))
+    finally:
+        _random.setstate(state)
+    ctx.count(stream, key, any(len(c) for c in F), sample=descr)
+    if got[0] != 'ok':
+        ctx.disagreements_checked += 1
+        ctx.violation('counterexample', 'Shuffle raised %s on the random path' % got[1],
+                      dict(input=descr, implementation=list(got)), True, site='Shuffle', cls='raises-' + got[1])
+        return
+    judge_random(ctx, stream, descr, N, F, modes, draws, got)
+
+
+def large_random(ctx, quick, CNF, Shuffle):
+    """the random path of the library on degenerate and large formulas"""
+    rng = ctx.rng
+    for k in (0, 1, 3):
+        F = [[] for _ in range(k)]
+        G = build(CNF, 0, F)
+        for sw in (SWITCHES if not quick else [SWITCHES[0], SWITCHES[3], SWITCHES[7]]):
+            modes = ['fixed' if on else 'shuffle' for on in sw]
+            seed = rng.randint(0, 10 ** 9)
+            ctx.tally('degenerate: random path', '0 variables, %d empty clauses' % k)
+            random_library_case(ctx, 'degenerate', dict(numvar=0, clauses=F, modes=modes, seed=seed), Shuffle, G, 0, F, modes, seed,
+                                ('deg-rand', k, str(modes)))
+    for i, (N, M) in enumerate([(257, 258), (300, 256), (1000, 17)] if quick else
+                               [(n, m) for n in THRESHOLD_N for m in (17, 256, 257, 1000)]):
+        F = big_cnf(rng, N, M)
+        G = build(CNF, N, F)
+        for sw in ([SWITCHES[0], SWITCHES[(i % 7) + 1]] if quick else SWITCHES):
+            modes = ['fixed' if on else 'shuffle' for on in sw]
+            seed = rng.randint(0, 10 ** 9)
+            ctx.tally('thresholds-random: variables x clauses', '%d x %d' % (N, M))
+            random_library_case(ctx, 'thresholds-random', dict(numvar=N, clauses=F, modes=modes, seed=seed), Shuffle, G, N, F, modes,
+                                seed, ('thr-rand', N, M, str(modes)))
+
+
+def history_stream(ctx, quick, CNF, Shuffle):
+    """one formula object shuffled, edited through its public API, shuffled again; shuffles of shuffles"""
+    rng = ctx.rng
+    jobs = []
+    for hi in range(25 if quick else 250):
+        G = CNF()
+        steps = []
+        if rng.random() < 0.5:
+            n0 = rng.randint(0, 3)
+            G.update_variable_number(n0)
+            steps.append(['update_variable_number', n0])
+        for ei in range(rng.randint(2, 5)):
+            N0 = G.number_of_variables()
+            edit = rng.choice(['clause-new-variables', 'clause-new-variables', 'clause-old', 'raise', 'new_variable', 'empty-clause'])
+            if edit == 'clause-new-variables':
+                c = [rng.choice([1, -1]) * (N0 + rng.randint(1, 4)) for _ in range(rng.randint(1, 2))]
+                if N0 and rng.random() < 0.6:
+                    c.append(rng.choice([1, -1]) * rng.randint(1, N0))
+                G.add_clause(c)
+                steps.append(['add_clause', c])
+            elif edit == 'clause-old':
+                c = [rng.choice([1, -1]) * rng.randint(1, N0) for _ in range(rng.randint(1, 3))] if N0 else []
+                G.add_clause(c)
+                steps.append(['add_clause', c])
+            elif edit == 'raise':
+                d = rng.randint(2, 5)
+                G.update_variable_number(N0 + d)
+                steps.append(['update_variable_number', N0 + d])
+            elif edit == 'new_variable':
+                G.new_variable('p')
+                steps.append(['new_variable', 'p'])
+            else:
+                G.add_clause([])
+                steps.append(['add_clause', []])
+            ctx.tally('history: edit', edit)
+            N, F = G.number_of_variables(), [list(c) for c in G]
+            fl, pm, cp = valid_args(rng, N, len(F))
+            r = outcome(Shuffle, G, fl, pm, cp)
+            descr = dict(kind='history', numvar=N, clauses=F, polarity_flips=jsonable(fl), variables_permutation=jsonable(pm),
+                         clauses_permutation=jsonable(cp), history=[list(x) for x in steps])
+            if (G.number_of_variables(), [list(c) for c in G]) != (N, F):
+                ctx.violation('counterexample', 'Shuffle changed the formula it was given',
+                              dict(input=descr, after=[G.number_of_variables(), [list(c) for c in G]]), True,
+                              site='Shuffle', cls='source-modified')
+            jobs.append(('history', descr, N, F, fl, pm, cp, (lambda r=r: replay_outcome(r)), ('hist', hi, ei)))
+            if r[0] == 'ok' and rng.random() < 0.5:
+                H = r[1]
+                N2, F2 = H.number_of_variables(), [list(c) for c in H]
+                fl2, pm2, cp2 = valid_args(rng, N2, len(F2))
+                r2 = outcome(Shuffle, H, fl2, pm2, cp2)
+                descr2 = dict(kind='history: shuffle of a shuffle', numvar=N2, clauses=F2, polarity_flips=jsonable(fl2),
+                              variables_permutation=jsonable(pm2), clauses_permutation=jsonable(cp2))
+                ctx.tally('history: edit', 'shuffle of a shuffle')
+                jobs.append(('history', descr2, N2, F2, fl2, pm2, cp2, (lambda r2=r2: replay_outcome(r2)), ('chain', hi, ei)))
+    run_explicit(ctx, jobs)
+
+
+def replay_outcome(r):
+    """give back an outcome computed earlier (the source object has been edited since)"""
+    if r[0] == 'ok':
+        return r[1]
+    e = type(r[1], (Exception,), {})(r[2])
+    raise e
+
+
+# --------------------------------------------------------------------------
 # command line
 # --------------------------------------------------------------------------
 def parse_dimacs(text):
@@ -419,24 +765,40 @@ def switch_args(sw, long=False):
 
 def run_cli(ctx, quick):
     rng = ctx.rng
-    # cnfshuffle
+    # cnfshuffle: a corpus of degenerate and large inputs first, then random small ones
+    corpus = [('0 variables, 0 clauses', 0, [], None), ('0 variables, 2 empty clauses', 0, [[], []], None),
+              ('0 variables, 1 empty clause', 0, [[]], None),
+              ('no declared extra variable', 3, [[1, -2], [3], [-3, 2]], None),
+              ('declared extra variables only', 5, [], None),
+              ('257 variables, 300 clauses', 257, big_cnf(rng, 257, 300), None),
+              ('header without trailing newline', 2, [[1, -2]], 'p cnf 2 1\n1 -2 0')]
+    if not quick:
+        corpus += [('0 variables, 17 empty clauses', 0, [[] for _ in range(17)], None),
+                   ('256 variables, 257 clauses', 256, big_cnf(rng, 256, 257), None),
+                   ('1000 variables, 258 clauses', 1000, big_cnf(rng, 1000, 258), None),
+                   ('300 variables, 1000 clauses', 300, big_cnf(rng, 300, 1000), None)]
+    inputs = [(tag, N, F, text, ([SWITCHES[0], SWITCHES[5]] if tag.startswith('0 var') else [SWITCHES[(len(tag) % 7) + 1], SWITCHES[0]])
+               if quick else SWITCHES) for tag, N, F, text in corpus]
     nform = 2 if quick else 8
     for fi in range(nform):
         N, F = random_cnf(rng, maxn=6, maxm=7)
         if fi == 0:
             N, F = 4, [[1, -2], [], [3, 3], [-1, 2, 2]]     # empty clause, unused variable 4, repeated literal
-        text = dimacs(N, F)
+        inputs.append(('random', N, F, None, SWITCHES))
+    for fi, (tag, N, F, text, switches) in enumerate(inputs):
+        text = text if text is not None else dimacs(N, F)
+        ctx.tally('cnfshuffle input', tag)
         fd, path = tempfile.mkstemp(prefix='c09in', suffix='.cnf')
         os.write(fd, text.encode())
         os.close(fd)
         try:
-            for si, sw in enumerate(SWITCHES):
+            for si, sw in enumerate(switches):
                 seed = rng.randint(0, 10 ** 6)
-                use_stdin = (si % 4 == 3)
+                use_stdin = (si % 4 == 3) or (tag != 'random' and si == 1)
                 argv = ['-q', '-S', seed] + switch_args(sw, long=(si % 2 == 1)) + ([] if use_stdin else ['-i', path])
                 rc, out, err, draws = child('cnfshuffle', argv, stdin=text if use_stdin else None)
                 modes = ['fixed' if on else 'shuffle' for on in sw]
-                descr = dict(tool='cnfshuffle', argv=[str(a) for a in argv], numvar=N, clauses=F)
+                descr = dict(tool='cnfshuffle', argv=[str(a) for a in argv], numvar=N, clauses=F, input=tag)
                 ctx.count('cli-cnfshuffle', (fi, str(argv)), any(len(c) for c in F), sample=descr)
                 ctx.tally('cnfshuffle switches', ''.join(switch_args(sw)) or 'none')
                 if rc != 0 or draws is None:
@@ -449,12 +811,17 @@ def run_cli(ctx, quick):
         finally:
             os.unlink(path)
     # cnfgen ... -T shuffle
-    fams = [['php', 3, 2], ['op', 3]] if quick else [['php', 3, 2], ['op', 3], ['php', 4, 3], ['parity', 4]]
+    # degenerate ('or 0 0' = one empty clause and no variable) and large (php 17 16 = 272 variables) formulas first
+    corpus = [['or', 0, 0], ['and', 0, 0], ['or', 2, 0], ['php', 17, 16]] + ([] if quick else [['and', 0, 3], ['php', 0, 0], ['op', 17], ['and', 200, 100]])
+    fams = corpus + ([['php', 3, 2], ['op', 3]] if quick else [['php', 3, 2], ['op', 3], ['php', 4, 3], ['parity', 4]])
     for fam in fams:
         rc0, out0, err0, _ = child('cnfgen', ['-q'] + fam)
         N, F = parse_dimacs(out0)
+        ctx.tally('-T shuffle formula', ' '.join(str(x) for x in fam))
         for si, sw in enumerate(SWITCHES):
-            if quick and si % 2 == 1 and fam != fams[0]:
+            if quick and fam in corpus and si not in (0, 1 + (len(str(fam)) % 7)):
+                continue
+            if quick and si % 2 == 1 and fam != fams[len(corpus)] and fam not in corpus:
                 continue
             seed = rng.randint(1, 10 ** 6)
             argv = ['-q', '--seed', seed] + fam + ['-T', 'shuffle'] + switch_args(sw, long=(si % 2 == 0))
@@ -480,6 +847,11 @@ def run(ctx):
     import cnfgen
     quick = ctx.tier == 'quick'
     rng = ctx.rng
+
+    # ---- stream 0: corpus of large / near-miss / degenerate inputs, edited formula objects ----
+    run_explicit(ctx, large_jobs(ctx, quick, CNF, Shuffle))
+    large_random(ctx, quick, CNF, Shuffle)
+    history_stream(ctx, quick, CNF, Shuffle)
 
     # ---- stream 1: explicit valid arguments ----
     nform = 150 if quick else 1500
